@@ -179,7 +179,8 @@ def q_then_changes_then_Q(self, m2, ts2, w2, col2):
 '''
 c = scenario("pdfminer.pdfinterp", "q_then_changes_then_Q", _QQ, props=["C05", "C16"])
 c.param("self", T.Obj("pdfminer.pdfinterp:PDFPageInterpreter", textstate=TextStateS(), graphicstate=GStateS(), ctm=M6(),
-                      gstack=T.Tup(as_list=True), device=T.Obj("pdfminer.pdfdevice:PDFDevice", ctm=M6())))
+                      gstack=T.Tup(as_list=True), device=T.Obj("pdfminer.pdfdevice:PDFDevice", ctm=M6()),
+                      scs=T.Const("the-stroking-colour-space"), ncs=T.Const("the-non-stroking-colour-space")))   # not part of q/Q in this code base: the frame keeps them
 c.param("m2", M6()).param("ts2", T.RealTup(6)).param("w2", T.Real()).param("col2", T.RealTup(3))
 c.req("device-in-sync", lambda self: eq(self.device.ctm, self.ctm))
 c.mod("self.textstate").mod("self.graphicstate")     # objects are replaced by the saved copies: compare by value below
